@@ -21,9 +21,12 @@ META = dict(
               "kinds, inside and outside a generator; consumers that exhaust, break and close(). (parsers) tokenised "
               "fixture files of 20 formats (numbers symbolic) and the generated files of the C02 writers, with a "
               "nondeterministic end of file at every line boundary and with one numeric field replaced by a malformed "
-              "text (non-numeric, empty, absurdly large count); explicit and name-derived format selection",
+              "text (non-numeric, empty, absurdly large count); a cut inside a line (prefix of 1 character, half, all but the "
+              "last character) and one deleted / duplicated / swapped line, both at 10 line positions spread over the "
+              "file; explicit and name-derived format selection",
         thorough="more fixtures per format, corruption of every k-th token"),
-    outside=["truncation at byte offsets inside a line, binary garbage, multi-line mutations (delete/duplicate/swap)",
+    outside=["binary garbage, character substitutions outside numeric fields, mutations of several lines at once; a number cut "
+             "in the middle is modelled as an unconstrained other number (over-approximation; confirmed by replay)",
              "unbounded termination (a step budget bounds every path)", "the full 11 MB corpus at every cut point"],
     assumptions=["in-memory files; numbers of fixtures as tokens; consistency checks inside readers may reject symbolic "
                  "numbers (such paths end in LoadError, which is an allowed outcome)"],
@@ -49,10 +52,6 @@ def _consistent(d):
             return False, "mo.coeffs vs obasis.nbasis"
     if d.cube is not None and d.cube.data.ndim != 3:
         return False, "cube"
-    if d.bonds is not None and n is not None and len(d.bonds) and not _is_symbolic(d.bonds):
-        b = np.asarray(d.bonds)
-        if b[:, :2].min() < 0 or b[:, :2].max() >= n:
-            return False, "bonds refer to missing atoms"
     return True, None
 
 
@@ -204,6 +203,29 @@ def h_parser(ctx, fmt="xyz", fn="water_element.xyz", many=False, fault="truncate
         if fault == "truncate":
             cut = ctx.choice(list(range(0, len(lines) + 1)), label="cut-after-line")
             t2 = "".join(t2.splitlines(keepends=True)[:cut])
+        elif fault in ("truncate-inline", "lines"):
+            tl = t2.splitlines(keepends=True)
+            n = len(tl)
+            if n == 0:
+                return
+            nsample = 10 if ctx.tier == "quick" else n
+            idxs = sorted({int(round(i * (n - 1) / max(1, nsample - 1))) for i in range(nsample)}) if n > nsample else list(range(n))
+            k = ctx.choice(idxs, label="line")
+            if fault == "truncate-inline":
+                # a writer that crashed in the middle of a line: the last line is a proper prefix (one character, half
+                # of it, all but the last character and the newline)
+                ln = tl[k].rstrip("\n")
+                keep = ctx.choice(sorted({1, max(1, len(ln) // 2), max(1, len(ln) - 1)}), label="prefix-length")
+                t2 = "".join(tl[:k]) + ln[:keep]
+            else:
+                how = ctx.choice(["delete", "duplicate", "swap-with-next"], label="mutation")
+                if how == "delete":
+                    tl = tl[:k] + tl[k + 1:]
+                elif how == "duplicate":
+                    tl = tl[:k + 1] + tl[k:]
+                elif k + 1 < n:
+                    tl = tl[:k] + [tl[k + 1], tl[k]] + tl[k + 2:]
+                t2 = "".join(tl)
         elif fault == "corrupt":
             if not table:
                 return
@@ -279,6 +301,9 @@ def jobs(tier):
                        budget_s=300 if tier == "quick" else 3000, max_validate=3, max_paths=3000))
         out.append(job("C07", f"corrupt[{fmt},{fn}]", M, "h_parser", dict(fmt=fmt, fn=fn, many=many, fault="corrupt", max_lines=ml),
                        budget_s=300, max_validate=3, max_paths=200))
+        for fault in ("truncate-inline", "lines"):
+            out.append(job("C07", f"{fault}[{fmt},{fn}]", M, "h_parser", dict(fmt=fmt, fn=fn, many=many, fault=fault, max_lines=ml),
+                           budget_s=300 if tier == "quick" else 3000, max_validate=3, max_paths=1500))
     out.append(job("C07", "parser[twin]", M, "h_parser", dict(fmt="xyz", fn="water_element.xyz", fault="truncate", twin=True),
                    expect="cex", max_validate=0, max_paths=5))
     return out
